@@ -578,10 +578,25 @@ func (f *frame) loopSpec(h *ssa.BasicBlock) *LoopSpec {
 func (f *frame) loopEnv(h *ssa.BasicBlock, st *State, override map[*ssa.Phi]Val) *Env {
 	c := f.c
 	return &Env{c: c, vars: f.ghostVars(), cur: st, old: c.entry, pkg: pkgOf(f.fn), guard: st.reach,
+		entry:      f.entryParams(),
 		lookupAddr: f.allocAddr,
 		lookup: func(name string) (Val, bool) {
 			return f.withState(st, func() (Val, bool) { return f.lookupVar(name, h, override) })
 		}}
+}
+
+// entryParams: parameter values at entry of the function under verification (top-level frame only).
+func (f *frame) entryParams() map[string]Val {
+	if !f.top {
+		return nil
+	}
+	m := map[string]Val{}
+	for i, p := range f.fn.Params {
+		if i < len(f.params) {
+			m[p.Name()] = f.params[i]
+		}
+	}
+	return m
 }
 
 // ghostVars: the ghost parameters of the function under verification (top-level frame only).
@@ -1211,7 +1226,13 @@ func (f *frame) binop(t *ssa.BinOp, st *State) Val {
 		xt := t.X.Type()
 		switch xt.Underlying().(type) {
 		case *types.Interface:
-			r = c.ifaceEq(x, y)
+			if isZeroConst(t.Y) {
+				r = Eq(x.L[0], IntT(0))
+			} else if isZeroConst(t.X) {
+				r = Eq(y.L[0], IntT(0))
+			} else {
+				r = c.ifaceEq(x, y)
+			}
 		default:
 			x = c.coerceTo(x, t.Y.Type())
 			y = c.coerceTo(y, t.X.Type())
@@ -1448,7 +1469,6 @@ func (f *frame) convert(t *ssa.Convert, st *State) Val {
 		case fb.Info()&types.IsString != 0 && tb.Info()&types.IsString != 0:
 			return Val{T: t.Type(), L: x.L}
 		case fb.Info()&types.IsInteger != 0 && tb.Info()&types.IsString != 0:
-			c.decls.Fun("rune2str", []string{SInt}, SStr)
 			return Val{T: t.Type(), L: []*Term{App("rune2str", SStr, x.term())}}
 		case fb.Info()&(types.IsInteger|types.IsFloat) != 0 && tb.Info()&(types.IsInteger|types.IsFloat) != 0:
 			c.decls.Fun("numconv", []string{SInt}, SInt)
@@ -1491,7 +1511,9 @@ func (f *frame) convert(t *ssa.Convert, st *State) Val {
 			if b, ok := sl.Elem().Underlying().(*types.Basic); ok && b.Kind() == types.Int32 {
 				kind = "runes2str"
 			}
-			c.decls.Fun(kind, []string{ArrS(SInt, SInt), SInt, SInt}, SStr)
+			if kind != "bytes2str" {
+				c.decls.Fun(kind, []string{ArrS(SInt, SInt), SInt, SInt}, SStr)
+			}
 			r := App(kind, SStr, Select(h, x.L[0]), x.L[1], x.L[2])
 			if kind == "bytes2str" {
 				c.addFact(Eq(c.sLen(r), x.L[2]))
